@@ -767,6 +767,14 @@ class App:
                 F_ = Hs[i] + np.eye(3)
                 wC = np.linalg.eigvalsh(F_.T @ F_)
                 gaps = np.array([abs(wC[a] - wC[b]) for a in range(3) for b in range(a + 1, 3)]) / wC[-1]
+                if np.min(gaps) < 1e-5 and np.any(Hs[i] != 0.0):
+                    # (nearly) repeated eigenvalues of C away from the exactly undeformed state, e.g. a rigid
+                    # rotation, where F'F equals the identity only up to rounding: documented inaccuracy
+                    ctx.skip('C10.fd/pow_symm_documented_inaccuracy')
+                    continue
+                # exactly repeated eigenvalues (C a multiple of the identity): recorded in the signature, see the
+                # known finding F-C10 (second derivative of pow_symm at exact degeneracy)
+                sig['C_isotropic_exact'] = bool(np.all(gaps == 0.0))
                 gaps = gaps[gaps > 0]
                 if gaps.size:
                     gmin = float(np.min(gaps))
